@@ -35,7 +35,8 @@ MANIFEST = {
             'every message.  Termination causes (run time reached, cancel '
             'naming this / another pilot, none) are enacted on the real '
             'Agent_0 methods with preceding no-op events interleaved.'
-            '  Second session: 35% of the histories register application-like pilot callbacks (one-shot, raising, registering) before a late observer which must be told exactly what the first observer is told.',
+            '  Second session: 35% of the histories register application-like pilot callbacks (one-shot, raising, registering) before a late observer which must be told exactly what the first observer is told.'
+            '  Third session: the agent sandbox of the cause scenarios holds agent_0.out/.err/.log of several kinds (absent, plain, UTF-8, 8-bit text of another locale, binary, multi-byte character cut at the read limit); finalize raising is a violation.',
     'note': 'Agent_0 is built with __new__ and a virtual clock; bootstrap_0.sh '
             'is not executed, only the file it reads (killme.signal) is '
             'checked; overlapping causes (cancel racing the run-time limit) '
@@ -563,10 +564,14 @@ def gen_cause(rng):
     noise = [rng.choice(['cancel_other', 'early_lifetime', 'heartbeat',
                          'unknown_cmd', 'cancel_other_list'])
              for _ in range(rng.randint(0, 4))]
+    kinds = [None, None, 'plain', 'plain', 'utf8', 'latin1', 'binary', 'cut',
+             'empty']
     return {'cause': cause, 'noise': noise,
             'runtime': rng.choice([1, 2, 10, 60]),
             'late_by': rng.choice([0, 1, 59, 600]),
-            'uids_form': rng.choice(['only', 'first', 'last'])}
+            'uids_form': rng.choice(['only', 'first', 'last']),
+            'outputs': {ext: rng.choice(kinds)
+                        for ext in ('out', 'err', 'log')}}
 
 
 def run_cause(case, res, workdir):
@@ -601,9 +606,23 @@ def run_cause(case, res, workdir):
     m_agent0.time = clk
     cwd = os.getcwd()
     os.chdir(workdir)
-    for f in ('killme.signal',):
+    for f in ('killme.signal', 'agent_0.out', 'agent_0.err', 'agent_0.log'):
         if os.path.exists(f):
             os.unlink(f)
+    # what the agent process wrote so far (finalize reports the head of it):
+    # absent, plain, UTF-8, another locale's 8-bit text, binary
+    OUTPUTS = {'plain' : b'agent_0 starting\nall is well\n',
+               'utf8'  : 'B\u00fccher \u2713 \u65e5\u672c\n'.encode('utf-8'),
+               'latin1': 'tar: Fehler beim Schlie\u00dfen; gr\u00f6\u00dfe\n'
+                         .encode('latin-1'),
+               'binary': bytes(range(256)) * 5,
+               'cut'   : ('x' * 1023).encode() + '\u00e9'.encode('utf-8'),
+               'empty' : b''}
+    for ext, kind in (case.get('outputs') or {}).items():
+        if kind in OUTPUTS:
+            with open('agent_0.%s' % ext, 'wb') as fout:
+                fout.write(OUTPUTS[kind])
+            res.see('agent_output_kinds', kind)
 
     ctx = {'case': case}
     try:
@@ -653,7 +672,16 @@ def run_cause(case, res, workdir):
             return
 
         # what the work loop does once `_term` is set
-        a.finalize()
+        try:
+            a.finalize()
+        except Exception as e:
+            # the agent's loop would log this and end: no reason is ever
+            # reported for the end of the pilot
+            res.count('cause_scenarios')
+            res.violation('finalize-raised/%s' % case['cause'], '%r; '
+                          'killme.signal written: %s' % (e,
+                          os.path.exists('killme.signal')), ctx)
+            return
 
         with open('killme.signal') as fin:
             signal = fin.read().strip()
